@@ -691,3 +691,104 @@ def c03_preconditions(rep, tier):
                 return
             require(rep, not any(pth.value), "%s: empty signer set and key/message count mismatch are rejected (False, no exception)" % suite, pth.decisions, rp)
         core.explore(run, on_path=on_path)
+
+
+# ---------------------------------------------------------------------------
+# C04
+
+def _c04_conditions(W, pk, sig):
+    """what a True answer must imply for one key string and the signature string."""
+    _, dk1, dt1, valid1 = W.codec(1)
+    _, dk2, dt2, valid2 = W.codec(2)
+    conds = []
+    if pk is not None:
+        conds += [LEN(pk.t) == 48, valid1(pk.t), dt1(pk.t) == 0, dk1(pk.t) % r != 0]
+    if sig is not None:
+        conds += [LEN(sig.t) == 96, valid2(sig.t), dt2(sig.t) == 0]
+    return conds
+
+
+def _c04_run(rep, name, call, n_keys, with_sig, tag, replay_kind="bls_total"):
+    cs = cs_mod()
+    rp = {"kind": replay_kind, "args": {"what": tag}}
+    seen = {True: 0, False: 0}
+
+    def run(ctx):
+        W = World()
+        pks = [SymBytes.var("pk%d" % i, 0, 200) for i in range(n_keys)]
+        sig = SymBytes.var("sig", 0, 200) if with_sig else None
+        msgs = [SymBytes.var("m%d" % i, 0, 4) for i in range(max(n_keys, 1))]
+        with world.patched(cs, **W.bindings()):
+            res = call(cs, pks, msgs, sig)
+            isb = isinstance(res, (bool, SymBool))
+            okb = bool(res)
+        return W, pks, sig, okb, isb
+
+    def on_path(pth):
+        rep.paths += 1
+        if pth.kind != "ret":
+            g, mdl = pth.ctx.satisfiable()
+            lens = {}
+            if mdl is not None:
+                for d in mdl.decls():
+                    pass
+            rep.fail("%s raised %r on arbitrary byte strings (must return False)" % (tag, pth.value), rp)
+            return
+        W, pks, sig, okb, isb = pth.value
+        require(rep, isb, "%s returns a boolean" % tag, pth.decisions, rp)
+        seen[okb] += 1
+        if okb:
+            conds = []
+            for pk in pks:
+                conds += _c04_conditions(W, pk, None)
+            conds += _c04_conditions(W, None, sig)
+            for cnd in conds:
+                g, mdl = pth.ctx.prove(cnd)
+                rpm = rp
+                if g == "sat":
+                    lens = {}
+                    for i, pk in enumerate(pks):
+                        lens["len_pk%d" % i] = mdl.eval(LEN(pk.t), model_completion=True).as_long()
+                    if sig is not None:
+                        lens["len_sig"] = mdl.eval(LEN(sig.t), model_completion=True).as_long()
+                    rpm = {"kind": replay_kind, "args": dict(what=tag, **lens)}
+                require(rep, g, "%s True => %s" % (tag, core._short(cnd, 60)), pth.decisions, rpm)
+        monitor_pairings(rep, pth, W, tag, rp)
+    core.explore(run, on_path=on_path, ctx_kwargs=dict(branch_timeout_ms=30000, max_decisions=300), max_paths=20000)
+    require(rep, seen[True] > 0 and seen[False] > 0, "%s: accepting and rejecting paths reachable" % tag, None, rp)
+
+
+@obligation("C04", "key_validate_total", bound="every byte string of length 0..200 as public key (content abstract, length symbolic)")
+def c04_keyvalidate(rep, tier):
+    cs = cs_mod()
+    rep.encoded(cs.BaseG2Ciphersuite.KeyValidate)
+    rep.stub("ideal model; pubkey_to_G1 with the REAL decoder's length behaviour (C11 byte_helpers / decompress_G1 length contract): < 48 bytes refused, longer strings decoded from their last 48 bytes")
+    for suite in SUITES:
+        _c04_run(rep, "kv", lambda cs, pks, msgs, sig, suite=suite: getattr(cs, suite).KeyValidate(pks[0]), 1, False, "%s.KeyValidate" % suite, "bls_keyvalidate")
+
+
+for _s in SUITES:
+    def _mk4(s):
+        def f(rep, tier):
+            cs = cs_mod()
+            rep.encoded(getattr(cs, s).Verify, cs.BaseG2Ciphersuite._CoreVerify)
+            rep.stub("ideal model (symx.blsmodel)")
+            _c04_run(rep, "v", lambda cs, pks, msgs, sig: getattr(cs, s).Verify(pks[0], msgs[0], sig), 1, True, "%s.Verify" % s)
+            _c04_run(rep, "av1", lambda cs, pks, msgs, sig: getattr(cs, s).AggregateVerify(pks, msgs, sig), 1, True, "%s.AggregateVerify(1 key)" % s)
+            _c04_run(rep, "av2", lambda cs, pks, msgs, sig: getattr(cs, s).AggregateVerify(pks, msgs, sig), 2, True, "%s.AggregateVerify(2 keys)" % s)
+            if tier == "thorough":
+                _c04_run(rep, "av3", lambda cs, pks, msgs, sig: getattr(cs, s).AggregateVerify(pks, msgs, sig), 3, True, "%s.AggregateVerify(3 keys)" % s)
+        return f
+    obligation("C04", "verifiers_total_%s" % _s, timeout=1200,
+               bound="every byte string of length 0..200 for each key and the signature (lengths symbolic, contents abstract), 1..2 keys (quick) / 1..3 (thorough); every message")(_mk4(_s))
+
+
+@obligation("C04", "pop_verifiers_total", timeout=1200, bound="PopVerify and FastAggregateVerify with 1..2 (quick) / 1..3 (thorough) arbitrary key strings of length 0..200, arbitrary signature string")
+def c04_pop(rep, tier):
+    cs = cs_mod()
+    S = cs.G2ProofOfPossession
+    rep.encoded(S.PopVerify, S.FastAggregateVerify, S._AggregatePKs, S._is_valid_pubkey)
+    rep.stub("ideal model (symx.blsmodel)")
+    _c04_run(rep, "pv", lambda cs, pks, msgs, sig: cs.G2ProofOfPossession.PopVerify(pks[0], sig), 1, True, "PopVerify")
+    for n in ((1, 2) if tier == "quick" else (1, 2, 3)):
+        _c04_run(rep, "fav", lambda cs, pks, msgs, sig: cs.G2ProofOfPossession.FastAggregateVerify(pks, msgs[0], sig), n, True, "FastAggregateVerify(%d keys)" % n)
